@@ -14,6 +14,8 @@ from rattr.results import (
 )
 
 if TYPE_CHECKING:
+    from pathlib import Path
+
     from rattr.analyser.types import ImportIrs
     from rattr.models.ir import FileIr, FunctionIr
     from rattr.models.symbol import Call
@@ -107,13 +109,17 @@ def make_target_ir_call_tree(
     root = IrCallTreeNode.new(target=target, call=None)
 
     queue = deque([root])
-    seen: set[Call] = set()
+    # NOTE
+    # Call equality ignores the location, calls made in different files are distinct
+    seen: set[tuple[Call, Path]] = set()
 
     while queue:
         node = queue.popleft()
 
         for call in node.edges_out:
-            if call.symbol in seen:
+            key = (call.symbol, call.symbol.location.defined_in)
+
+            if key in seen:
                 continue
 
             call_target = find_call_target_and_ir(call, environment=environment)
@@ -126,7 +132,7 @@ def make_target_ir_call_tree(
             node.children.append(child)
             queue.append(child)
 
-            seen.add(call.symbol)
+            seen.add(key)
 
     return root
 
